@@ -298,6 +298,25 @@ fn contended_skip(name: &str) -> Option<&'static str> {
     }
 }
 
+/// a reply as text; the replies whose order is the hash table's as a multiset of leaves
+pub fn shown_reply(name: &str, r: &crate::resp::R) -> String {
+    use crate::resp;
+    let unordered = matches!(name.to_uppercase().as_str(), "HKEYS" | "HVALS" | "HGETALL" | "SMEMBERS" | "SDIFF" | "SUNION" | "SINTER" | "KEYS" | "SCAN" | "HSCAN" | "SSCAN" | "ZSCAN");
+    if !unordered {
+        return resp::show(r);
+    }
+    fn leaves(r: &crate::resp::R, out: &mut Vec<String>) {
+        match r {
+            crate::resp::R::Arr(v) => v.iter().for_each(|x| leaves(x, out)),
+            other => out.push(crate::resp::show(other)),
+        }
+    }
+    let mut l = Vec::new();
+    leaves(r, &mut l);
+    l.sort();
+    format!("{{{}}}", l.join(" "))
+}
+
 thread_local! {
     static CONT_H: std::cell::RefCell<Option<super::c05::Harness>> = const { std::cell::RefCell::new(None) };
 }
@@ -350,20 +369,7 @@ fn contended_run(h: &mut super::c05::Harness, state: usize, cmdv: &[String], con
     let reply = {
         let srv = h.srv.as_ref().unwrap();
         let r = srv.connect().map_err(|e| format!("connect: {:?}", e)).and_then(|mut c| {
-            let unordered = matches!(cmdv[0].as_str(), "HKEYS" | "HVALS" | "HGETALL" | "SMEMBERS" | "SDIFF" | "SUNION" | "SINTER" | "KEYS" | "SCAN" | "HSCAN" | "SSCAN" | "ZSCAN");
-            let r = srv.call(&mut c, cmdv).map(|r| if unordered {
-                // the order of these replies is the hash table's: compared as a multiset of leaves
-                fn leaves(r: &resp::R, out: &mut Vec<String>) {
-                    match r {
-                        resp::R::Arr(v) => v.iter().for_each(|x| leaves(x, out)),
-                        other => out.push(resp::show(other)),
-                    }
-                }
-                let mut l = Vec::new();
-                leaves(&r, &mut l);
-                l.sort();
-                format!("{{{}}}", l.join(" "))
-            } else { resp::show(&r) }).unwrap_or_else(|e| format!("<{:?}>", e));
+            let r = srv.call(&mut c, cmdv).map(|r| shown_reply(&cmdv[0], &r)).unwrap_or_else(|e| format!("<{:?}>", e));
             c.close();
             let _ = srv.steps(2);
             Ok(r)
